@@ -447,14 +447,10 @@ theorem gMakeServers_get {mk : Nat → SrvRef} {l : List Server} {gs : List GSrv
 def EffSrv (d : Doc) (pd : PathDecl) (g : GSrv) : Prop :=
   if pd.servers = [] then CompiledFrom SrvRef.doc d.servers g else CompiledFrom (SrvRef.path pd.template) pd.servers g
 
-/-- the compiled servers the code as it is can attach to a route: any server declared anywhere in the document -/
-def DeclSrv (d : Doc) (g : GSrv) : Prop :=
-  CompiledFrom SrvRef.doc d.servers g ∨ ∃ q ∈ d.paths, q.servers ≠ [] ∧ CompiledFrom (SrvRef.path q.template) q.servers g
-
-theorem gLoop_cons {leak : Bool} {ds cur : List GSrv} {p : PathDecl} {ps : List PathDecl} {rs : List GRoute}
-    (h : gLoop leak ds cur (p :: ps) = some rs) :
-    ∃ use a b, (if p.servers = [] then some (if leak then cur else ds) else gMakeServers (SrvRef.path p.template) p.servers) = some use ∧
-      allSome (use.map (mkRoute p)) = some a ∧ gLoop leak ds use ps = some b ∧ rs = a ++ b := by
+theorem gLoop_cons {ds : List GSrv} {p : PathDecl} {ps : List PathDecl} {rs : List GRoute}
+    (h : gLoop ds (p :: ps) = some rs) :
+    ∃ use a b, (if p.servers = [] then some ds else gMakeServers (SrvRef.path p.template) p.servers) = some use ∧
+      allSome (use.map (mkRoute p)) = some a ∧ gLoop ds ps = some b ∧ rs = a ++ b := by
   simp only [gLoop] at h
   split at h
   · simp at h
@@ -465,53 +461,15 @@ theorem gLoop_cons {leak : Bool} {ds cur : List GSrv} {p : PathDecl} {ps : List 
       exact ⟨use, a, b, hu, ha, hb, h.symm⟩
     · simp at h
 
-/-- every route of the list comes from a path item of the list and a compiled server -/
-theorem gLoop_mem {leak : Bool} {ds : List GSrv} : ∀ {ps : List PathDecl} {cur : List GSrv} {rs : List GRoute},
-    gLoop leak ds cur ps = some rs → ∀ r ∈ rs, ∃ pd ∈ ps, ∃ g, mkRoute pd g = some r ∧
-      (g ∈ cur ∨ g ∈ ds ∨ ∃ q ∈ ps, q.servers ≠ [] ∧ ∃ l, gMakeServers (SrvRef.path q.template) q.servers = some l ∧ g ∈ l) := by
-  intro ps
-  induction ps with
-  | nil => intro cur rs h r hr; simp [gLoop] at h; subst h; simp at hr
-  | cons p ps ih =>
-    intro cur rs h r hr
-    obtain ⟨use, a, b, hu, ha, hb, rfl⟩ := gLoop_cons h
-    simp only [List.mem_append] at hr
-    rcases hr with hr | hr
-    · have := (allSome_mem ha).1 hr
-      simp only [List.mem_map] at this
-      obtain ⟨g, hg, hm⟩ := this
-      refine ⟨p, by simp, g, hm, ?_⟩
-      split at hu
-      · simp only [Option.some.injEq] at hu
-        subst hu
-        cases leak
-        · exact Or.inr (Or.inl (by simpa using hg))
-        · exact Or.inl (by simpa using hg)
-      · rename_i hne
-        exact Or.inr (Or.inr ⟨p, by simp, hne, use, hu, hg⟩)
-    · obtain ⟨pd, hpd, g, hm, hg⟩ := ih hb r hr
-      refine ⟨pd, by simp [hpd], g, hm, ?_⟩
-      rcases hg with hg | hg | ⟨q, hq, hne, l, hl, hgl⟩
-      · split at hu
-        · simp only [Option.some.injEq] at hu
-          subst hu
-          cases leak
-          · exact Or.inr (Or.inl (by simpa using hg))
-          · exact Or.inl (by simpa using hg)
-        · rename_i hne
-          exact Or.inr (Or.inr ⟨p, by simp, hne, use, hu, hg⟩)
-      · exact Or.inr (Or.inl hg)
-      · exact Or.inr (Or.inr ⟨q, by simp [hq], hne, l, hl, hgl⟩)
-
-/-- after the repair: the routes of the list are exactly (path item of the list) × (the compiled servers that apply to it) -/
-theorem gLoop_fixed_mem {ds : List GSrv} : ∀ {ps : List PathDecl} {cur : List GSrv} {rs : List GRoute},
-    gLoop false ds cur ps = some rs → ∀ r, r ∈ rs ↔ ∃ pd ∈ ps, ∃ g, mkRoute pd g = some r ∧
+/-- the routes of the list are exactly (path item of the list) × (the compiled servers that apply to it) -/
+theorem gLoop_mem {ds : List GSrv} : ∀ {ps : List PathDecl} {rs : List GRoute},
+    gLoop ds ps = some rs → ∀ r, r ∈ rs ↔ ∃ pd ∈ ps, ∃ g, mkRoute pd g = some r ∧
       (if pd.servers = [] then g ∈ ds else ∃ l, gMakeServers (SrvRef.path pd.template) pd.servers = some l ∧ g ∈ l) := by
   intro ps
   induction ps with
-  | nil => intro cur rs h r; simp [gLoop] at h; subst h; simp
+  | nil => intro rs h r; simp [gLoop] at h; subst h; simp
   | cons p ps ih =>
-    intro cur rs h r
+    intro rs h r
     obtain ⟨use, a, b, hu, ha, hb, rfl⟩ := gLoop_cons h
     simp only [List.mem_append, List.mem_cons, exists_eq_or_imp, ← ih hb r, allSome_mem ha, List.mem_map]
     apply or_congr_left
@@ -519,7 +477,7 @@ theorem gLoop_fixed_mem {ds : List GSrv} : ∀ {ps : List PathDecl} {cur : List 
     · rintro ⟨g, hg, hm⟩
       refine ⟨g, hm, ?_⟩
       split at hu
-      · simp only [Bool.false_eq_true, if_false, Option.some.injEq] at hu
+      · simp only [Option.some.injEq] at hu
         subst hu
         rename_i he; simp [he, hg]
       · rename_i hne
@@ -528,7 +486,7 @@ theorem gLoop_fixed_mem {ds : List GSrv} : ∀ {ps : List PathDecl} {cur : List 
     · rintro ⟨g, hm, hg⟩
       refine ⟨g, ?_, hm⟩
       split at hu
-      · simp only [Bool.false_eq_true, if_false, Option.some.injEq] at hu
+      · simp only [Option.some.injEq] at hu
         subst hu
         rename_i he; simpa [he] using hg
       · rename_i hne
@@ -539,14 +497,14 @@ theorem gLoop_fixed_mem {ds : List GSrv} : ∀ {ps : List PathDecl} {cur : List 
         exact hgl
 
 /-- a route list was built: the servers of every path item that declares some compiled -/
-theorem gLoop_compiles {leak : Bool} {ds : List GSrv} : ∀ {ps : List PathDecl} {cur : List GSrv} {rs : List GRoute},
-    gLoop leak ds cur ps = some rs → ∀ pd ∈ ps, pd.servers ≠ [] →
+theorem gLoop_compiles {ds : List GSrv} : ∀ {ps : List PathDecl} {rs : List GRoute},
+    gLoop ds ps = some rs → ∀ pd ∈ ps, pd.servers ≠ [] →
       ∃ l, gMakeServers (SrvRef.path pd.template) pd.servers = some l := by
   intro ps
   induction ps with
-  | nil => intro cur rs _ pd hpd; simp at hpd
+  | nil => intro rs _ pd hpd; simp at hpd
   | cons p ps ih =>
-    intro cur rs h pd hpd hne
+    intro rs h pd hpd hne
     obtain ⟨use, a, b, hu, ha, hb, rfl⟩ := gLoop_cons h
     simp only [List.mem_cons] at hpd
     rcases hpd with rfl | hpd
@@ -554,14 +512,14 @@ theorem gLoop_compiles {leak : Bool} {ds : List GSrv} : ∀ {ps : List PathDecl}
       exact ⟨use, hu⟩
     · exact ih hb pd hpd hne
 
-theorem gLoop_pairwise {leak : Bool} {ds : List GSrv} : ∀ {ps : List PathDecl} {cur : List GSrv} {rs : List GRoute},
-    ps.Pairwise (fun a b => nvars a.template ≤ nvars b.template) → gLoop leak ds cur ps = some rs →
+theorem gLoop_pairwise {ds : List GSrv} : ∀ {ps : List PathDecl} {rs : List GRoute},
+    ps.Pairwise (fun a b => nvars a.template ≤ nvars b.template) → gLoop ds ps = some rs →
     rs.Pairwise (fun a b => nvars a.template ≤ nvars b.template) := by
   intro ps
   induction ps with
-  | nil => intro cur rs _ h; simp [gLoop] at h; subst h; simp
+  | nil => intro rs _ h; simp [gLoop] at h; subst h; simp
   | cons p ps ih =>
-    intro cur rs hp h
+    intro rs hp h
     obtain ⟨use, a, b, hu, ha, hb, rfl⟩ := gLoop_cons h
     rw [List.pairwise_cons] at hp
     have hat : ∀ r ∈ a, r.template = p.template := by
@@ -577,82 +535,33 @@ theorem gLoop_pairwise {leak : Bool} {ds : List GSrv} : ∀ {ps : List PathDecl}
       rw [hat r1 h1, hat r2 h2]
       exact Nat.le_refl _
     · intro r1 h1 r2 h2
-      obtain ⟨pd, hpd, g, hm, _⟩ := gLoop_mem hb r2 h2
+      obtain ⟨pd, hpd, g, hm, _⟩ := (gLoop_mem hb r2).1 h2
       rw [hat r1 h1, (mkRoute_some hm).1]
       exact hp.1 pd hpd
 
-theorem pairwise_routes {leak : Bool} {d : Doc} {rs : List GRoute} (h : gorillaRoutesL leak d = some rs) :
+theorem pairwise_routes {d : Doc} {rs : List GRoute} (h : gorillaRoutes d = some rs) :
     rs.Pairwise (fun a b => nvars a.template ≤ nvars b.template) := by
-  unfold gorillaRoutesL at h
+  unfold gorillaRoutes at h
   split at h
   · simp at h
   · exact gLoop_pairwise (pairwise_inMatchingOrder d.paths) h
 
-/-- the loop result does not depend on the carried variable once the leak is repaired -/
-theorem gLoop_fixed_cur {ds : List GSrv} : ∀ (ps : List PathDecl) (cur cur' : List GSrv),
-    gLoop false ds cur ps = gLoop false ds cur' ps := by
-  intro ps
-  induction ps with
-  | nil => intro cur cur'; simp [gLoop]
-  | cons p ps ih =>
-    intro cur cur'
-    simp only [gLoop, Bool.false_eq_true, if_false]
-
-/-- the leak is invisible unless, in matching order, a path item with servers precedes one without -/
-theorem gLoop_leak_eq {ds : List GSrv} : ∀ (ps : List PathDecl) (cur : List GSrv),
-    (cur = ds ∨ ∀ q ∈ ps, q.servers ≠ []) → leakShape ps = false → gLoop true ds cur ps = gLoop false ds cur ps := by
-  intro ps
-  induction ps with
-  | nil => intro cur _ _; simp [gLoop]
-  | cons p ps ih =>
-    intro cur hinv hsh
-    simp only [leakShape, Bool.or_eq_false_iff, Bool.and_eq_false_iff] at hsh
-    obtain ⟨h1, h2⟩ := hsh
-    by_cases hp : p.servers = []
-    · have hc : cur = ds := by
-        rcases hinv with h | h
-        · exact h
-        · exact absurd hp (h p (by simp))
-      subst hc
-      simp only [gLoop, hp, if_true, Bool.false_eq_true, if_false]
-      rw [ih cur (Or.inl rfl) h2]
-    · have hall : ∀ q ∈ ps, q.servers ≠ [] := by
-        rcases h1 with h | h
-        · simp [hp] at h
-        · intro q hq he
-          have : (ps.any fun q => decide (q.servers = [])) = true := by
-            simp only [List.any_eq_true, decide_eq_true_eq]; exact ⟨q, hq, he⟩
-          rw [this] at h; simp at h
-      simp only [gLoop, hp, if_false]
-      cases hms : gMakeServers (SrvRef.path p.template) p.servers with
-      | none => rfl
-      | some use =>
-        simp only
-        rw [ih use (Or.inr hall) h2]
-
-theorem gorillaRoutes_leak_eq (d : Doc) (h : leakShape (inMatchingOrder d.paths) = false) :
-    gorillaRoutesL true d = gorillaRoutesL false d := by
-  unfold gorillaRoutesL
-  cases gMakeServers SrvRef.doc d.servers with
-  | none => rfl
-  | some ds => exact gLoop_leak_eq _ ds (Or.inl rfl) h
-
-theorem gLoop_fixed_built {ds : List GSrv} : ∀ {ps : List PathDecl} {cur : List GSrv} {rs : List GRoute},
-    gLoop false ds cur ps = some rs → ∀ pd ∈ ps, ∀ g,
+theorem gLoop_built {ds : List GSrv} : ∀ {ps : List PathDecl} {rs : List GRoute},
+    gLoop ds ps = some rs → ∀ pd ∈ ps, ∀ g,
       (if pd.servers = [] then g ∈ ds else ∃ l, gMakeServers (SrvRef.path pd.template) pd.servers = some l ∧ g ∈ l) →
       ∃ r, mkRoute pd g = some r := by
   intro ps
   induction ps with
-  | nil => intro cur rs _ pd hpd; simp at hpd
+  | nil => intro rs _ pd hpd; simp at hpd
   | cons p ps ih =>
-    intro cur rs h pd hpd g hg
+    intro rs h pd hpd g hg
     obtain ⟨use, a, b, hu, ha, hb, rfl⟩ := gLoop_cons h
     simp only [List.mem_cons] at hpd
     rcases hpd with rfl | hpd
     · have hgu : g ∈ use := by
         split at hu
         · rename_i he
-          simp only [Bool.false_eq_true, if_false, Option.some.injEq] at hu
+          simp only [Option.some.injEq] at hu
           subst hu
           simpa [he] using hg
         · rename_i he
@@ -668,13 +577,11 @@ theorem gLoop_fixed_built {ds : List GSrv} : ∀ {ps : List PathDecl} {cur : Lis
       exact ⟨r, hr.symm⟩
     · exact ih hb pd hpd g hg
 
-/-- on documents without the leak shape the route list is exactly (path item) × (servers that apply to it), all compiled -/
-theorem routes_effective {d : Doc} {rs : List GRoute} (h : gorillaRoutesL true d = some rs)
-    (hsh : leakShape (inMatchingOrder d.paths) = false) :
+/-- the route list is exactly (path item) × (servers that apply to it), all compiled -/
+theorem routes_effective {d : Doc} {rs : List GRoute} (h : gorillaRoutes d = some rs) :
     (∀ r, r ∈ rs ↔ ∃ pd ∈ d.paths, ∃ g, EffSrv d pd g ∧ mkRoute pd g = some r) ∧
     (∀ pd ∈ d.paths, ∀ g, EffSrv d pd g → ∃ r, mkRoute pd g = some r) := by
-  rw [gorillaRoutes_leak_eq d hsh] at h
-  unfold gorillaRoutesL at h
+  unfold gorillaRoutes at h
   split at h
   · simp at h
   · rename_i ds hds
@@ -693,7 +600,7 @@ theorem routes_effective {d : Doc} {rs : List GRoute} (h : gorillaRoutesL true d
           exact gMakeServers_mem hl hgl
     refine ⟨?_, ?_⟩
     · intro r
-      rw [gLoop_fixed_mem h r]
+      rw [gLoop_mem h r]
       constructor
       · rintro ⟨pd, hpd, g, hm, hg⟩
         have hpd' := (mem_inMatchingOrder _ _).1 hpd
@@ -701,7 +608,7 @@ theorem routes_effective {d : Doc} {rs : List GRoute} (h : gorillaRoutesL true d
       · rintro ⟨pd, hpd, g, hg, hm⟩
         exact ⟨pd, (mem_inMatchingOrder _ _).2 hpd, g, hm, (conv pd hpd g).1 hg⟩
     · intro pd hpd g hg
-      exact gLoop_fixed_built h pd ((mem_inMatchingOrder _ _).2 hpd) g ((conv pd hpd g).1 hg)
+      exact gLoop_built h pd ((mem_inMatchingOrder _ _).2 hpd) g ((conv pd hpd g).1 hg)
 
 /-- what it means that a compiled server `g` and a path template `t` reproduce the request with the extracted
     variables `b`: the request path is "base path of g + t" with non-empty slash-free values substituted, the request
